@@ -246,7 +246,7 @@ def harness(ctx):
     exe, log = ctx.cc('h_wav', [os.path.join(vlib.VERIF, 'harness/h_wav.c'), R + '/librfn/wavheader.c', R + '/librfn/pack.c', R + '/librfn/string.c',
                                 R + '/librfn/util.c', R + '/librfn/posix/time_posix.c'])
     if not exe:
-        raise vlib.Infra('wav harness does not compile against the repository: ' + log[-1500:])
+        raise vlib.Unbuildable('wav harness does not compile against the repository: ' + log[-1500:])
     return exe
 
 
